@@ -8,6 +8,16 @@ CLAIMED = {
    text="Exploration by execution: all 1040 BitMatrix shapes (1..130 x 1..8) and all BitArray sizes 0..200 from both constructors are enumerated completely; for each, seeded random 40-step histories over the exported API run on the real code and a naive boolean model side by side, with full-state and all-query comparison after every step. Held-on-what-was-observed, not a proof over all histories.",
    note="Trusted base: the ~150-line boolean models in harness/worker/c16.go; Go runtime. Arguments are in-range only (the statement's quantifier).",
    design="5/C16"),
+ "C20": dict(
+   technique="runtime reference-model monitor: RecordPattern/RecordPatternInReverse vs a run-length model on []bool for every start offset; PatternMatchVariance vs the contract evaluated in exact integer/rational arithmetic",
+   text="Exploration by execution: rows of every length 0..300 with every start offset and counter length 1..10; all counter vectors with entries 0..6 (lengths 3..6) against typical symbology patterns and five variance limits are enumerated completely, plus seeded random vectors, exact multiples, outliers and scale factors 2..9. The oracle is the statement's own formula computed exactly. Held-on-what-was-observed.",
+   note="Trusted base: run-length model and integer formula in harness/worker/c20.go (cross-checked against math/big.Rat in the start-up self-test). Don't-care regions per DESIGN C20 (reverse recording when the runs begin at index 0; comparisons within 1e-9 of the limit).",
+   design="5/C20"),
+ "C04": dict(
+   technique="runtime reference-model monitor: library GF tables vs carry-less multiply-and-reduce for all element pairs; RS encoder vs polynomial long division + direct syndromes; RS decoder vs exact restoration under injected symbol errors",
+   text="Exploration by execution with exhaustive sub-spaces: every product, inverse, log and exp of all six fields (17.9M products) is compared with shift-and-xor arithmetic; RS codes with n<=20 get every single and double error position, long codes (n up to |F|-1, r up to n-1) get 0/1/t-1/t errors at random, extreme and burst positions. Held-on-what-was-observed for the sampled data words and magnitudes.",
+   note="Trusted base: harness/ref/gf (40 lines), harness/ref/rs (long division, Horner syndromes), anchored on ISO 18004 Annex I and the ISO 16022 '123456' example. More than floor(r/2) errors are never injected.",
+   design="5/C04"),
 }
 
 PENDING_REASON = "monitor not yet built in this round (designed in DESIGN.md section 5; build order in section 8) - not claimed until its check runs clean"
